@@ -106,6 +106,7 @@ package procbuilder
 // from the process-wide math/rand source by design, which is outside the VM).
 //@ func (vm *VM) Step(psc *SimConfig) (string, error)
 //@   requires vm != nil && vm.Mach != nil && vm.SimDelayArray == nil
+//@   ensures newmap: fresh(vm.DeferredInstructions) || vm.DeferredInstructions == old(vm.DeferredInstructions)
 //@   assigns vm.DeferredInstructions, vm.Pc, vm.LastPc, vm.DelayCounter, vm.Registers[*], vm.Memory[*], vm.Inputs[*], vm.Outputs[*], vm.InputsValid[*], vm.OutputsValid[*],
 //@           vm.InputsRecv[*], vm.OutputsRecv[*], vm.Extra_states[*], vm.DeferredInstructions[*]
 //@   reads vm.*, vm.Registers[*], vm.Memory[*], vm.Inputs[*], vm.Outputs[*], vm.InputsValid[*], vm.OutputsValid[*],
